@@ -36,9 +36,9 @@ def bounds(tier):
             "thresholds": "every position 0..n", "style": [True, False]}
 
 
-def judge(kind, cards, style, audit_type, thr, feats=None):
+def judge(kind, cards, style, audit_type, thr, feats=None, direct=False):
     try:
-        w = s3.workflow(kind, cards, style, audit_type=audit_type, via_all=(thr % 2 == 1))
+        w = s3.workflow(kind, cards, style, audit_type=audit_type, via_all=(thr % 2 == 1), direct=direct)
     except Exception as e:  # noqa
         return [(f"C06|{kind}|workflow-exception|{type(e).__name__}", f"preparation raised {type(e).__name__}: {str(e)[:80]}")], None
     if not w["under"]:
@@ -244,6 +244,15 @@ def run_shard(sh, rec):
                         rec.trace()
                     for key, what in v:
                         rec.violate(key, what, {"kind": kind, "cards": [list(c) for c in cards], "style": style, "audit_type": at, "thr": thr})
+                    if kind in s3.SM and thr == n and n <= 2:  # the same with the assertion built by calling the constructor directly
+                        v2, o2 = judge(kind, cards, style, at, thr, None, direct=True)
+                        rec.trans()
+                        rec.evals()
+                        rec.vac("supermajority_assertion_built_directly")
+                        rec.observe((kind, ms, reduced, style, at, thr, "direct", o2))
+                        for key, what in v2:
+                            rec.violate(key + "|built-directly", what + " [assertion from make_supermajority_assertion without the share_to_win argument]",
+                                        {"kind": kind, "cards": [list(c) for c in cards], "style": style, "audit_type": at, "thr": thr, "direct": True})
                     if rec.want_sample((kind, ms, reduced, style, at, thr)):
                         rec.sample({"assorter": kind, "audit_type": at, "style": style, "threshold": thr, "cards": s3.show(kind, cards), "data,u": o})
 
@@ -271,4 +280,5 @@ def run_case(case):
         return judge_tiny_margin(case["kind"], case["audit_type"], case["margin"])
     if case.get("multi"):
         return judge_multi([tuple(c) for c in case["cards"]], case["style"], case["audit_type"])[0]
-    return judge(case["kind"], [tuple(c) for c in case["cards"]], case["style"], case["audit_type"], case["thr"])[0]
+    v = judge(case["kind"], [tuple(c) for c in case["cards"]], case["style"], case["audit_type"], case["thr"], None, bool(case.get("direct")))[0]
+    return [(k + "|built-directly", w) for k, w in v] if case.get("direct") else v
